@@ -197,6 +197,11 @@ func c01Body(t *testing.T, s *sim.Scn, o *sim.Outcome) {
 			} else {
 				n.Exec.ExecScript = nil
 			}
+			// the block size limit the execution layer reports with this step's answers
+			n.Exec.MaxBytes = []uint64{0, 0, 64, 1, 5000}[(op.C>>8)%5]
+			if n.Exec.MaxBytes != 0 {
+				o.Count("exec-reports-small-max-bytes", 1)
+			}
 			hBefore := n.Height()
 			err := n.Produce()
 			n.Scripted.Script = nil
@@ -288,6 +293,7 @@ func c01Gen(r *rand.Rand, tier string) *sim.Scn {
 	pBad := r.IntN(40)  // % of steps with a non-well-formed response kind
 	pTs := r.IntN(30)   // % with equal/earlier timestamps
 	pExec := r.IntN(20) // % exec failures
+	pMax := r.IntN(50)  // % steps after which the execution layer reports a small block size limit
 	for i := 0; i < n; i++ {
 		if r.IntN(12) == 0 {
 			s.Ops = append(s.Ops, sim.Op{K: "restart"})
@@ -301,6 +307,9 @@ func c01Gen(r *rand.Rand, tier string) *sim.Scn {
 			op.B = 1 + r.Int64N(2) + 3*r.Int64N(5)
 		}
 		op.C = r.Int64N(64)
+		if r.IntN(100) < pMax {
+			op.C |= r.Int64N(5) << 8
+		}
 		if r.IntN(100) < pExec {
 			op.S = "f"
 		}
